@@ -131,4 +131,37 @@ def demoEntries (r : Nat) : Option (List Hash) :=
 
 example : demoEntries 0 = some [[1], [2], [3], [4]] ∧ demoEntries 1 = some [[1], [2], [3], [4]] := by decide
 
+/-- histories also contain replicas rebuilt from another one — by the constructor from its live entries,
+    or by a loader from what a fetch delivered (`Op.rebuild`: the source's entries in any order, heads
+    handed over or recomputed): the rebuilt replica has merged what its source had, so `convergence`
+    applies to it like to any other replica.  Here: replica 0 rebuilt from its entries in reverse order,
+    without heads, then joined by a replica that is behind. -/
+def demoRebuilt : Option (List Hash × List Hash × List Hash) :=
+  match Sys.init.run demoOps with
+  | some s =>
+    match s.logs 0 with
+    | some l =>
+      match s.step (.rebuild 0 [4, 3] l.entries.reverse false) with
+      | some s1 =>
+        match s1.run [.newLog [88] [4, 4] .lww, .join 3 2] with
+        | some s2 => some (((s2.logs 2).map (fun l => hashes (values l))).getD [],
+                           ((s2.logs 3).map (fun l => hashes (values l))).getD [],
+                           ((s2.logs 2).map (fun l => hashes l.heads)).getD [])
+        | none => none
+      | none => none
+    | none => none
+  | none => none
+
+example : demoRebuilt = some ([[1], [2], [3], [4]], [[1], [2], [3], [4]], [[4]]) := by decide
+
+/-- the rebuilt replica equals its source: entries, heads, id, ordering -/
+theorem rebuild_equals_source {s s' : Sys} (hr : Reachable s) {src : Nat} {cid : Bytes} {ents : List Entry} {wh : Bool}
+    (hstep : s.step (.rebuild src cid ents wh) = some s') :
+    ∃ l L, s.logs src = some l ∧ s'.logs s.n = some L ∧ L.id = l.id ∧ L.sortFn = l.sortFn ∧
+      (∀ x, x ∈ L.entries ↔ x ∈ l.entries) ∧ (∀ x, x ∈ L.heads ↔ x ∈ l.heads) := by
+  obtain ⟨l, hl, hg, rfl⟩ := rebuild_step hstep
+  have I := reachable_inv hr
+  obtain ⟨_, h2, h3, h4, h5⟩ := rebuild_spec I.uni (I.inv src l hl) cid wh hg
+  exact ⟨l, _, hl, upd_same _ _ _, h2, h5, h3, h4⟩
+
 end Model.C01
